@@ -126,6 +126,11 @@ class Prop:
             if c.random() < 0.5:
                 static.append({"id": nid("s"), "trait": i, "arity": c.randint(0, 3),
                                "fired": c.random() < 0.5})
+                if c.random() < 0.3:
+                    # both spellings for one trait: _x_changed AND _x_fired, each called once
+                    static[-1]["fired"] = False
+                    static.append({"id": nid("s"), "trait": i, "arity": c.randint(0, 3),
+                                   "fired": True, "both": True})
         any_h = {"id": nid("a"), "arity": c.randint(1, 3)} if c.random() < 0.4 else None
         dec = []
         for _ in range(c.choice([0, 0, 1, 2])):
@@ -190,8 +195,10 @@ class Prop:
                     # quiet: no handler is called for these assignments - and every
                     # handler is called again for the next ordinary one
                     op["quiet"] = r.choice(["trait_setq", "trait_set"])
-            elif x < 0.76:
+            elif x < 0.73:
                 op = {"k": "read", "t": r.randrange(ntr)}
+            elif x < 0.76:
+                op = {"k": "readd", "t": r.randrange(ntr)}
             elif x < 0.86:
                 d = r.choice(dyn)
                 op = {"k": r.choice(["reg", "unreg"]), "h": d["id"]}
@@ -216,6 +223,21 @@ class Prop:
                            "override": override},
                 "ops": ops}
 
+    @staticmethod
+    def mk_trait(t):
+        from traits.api import Any, Int, Str, List, Event, Button, Instance
+        from traits.constants import ComparisonMode as CM
+        from ..zoo import NodeBase
+        cm = {"none": CM.none, "identity": CM.identity, "equality": CM.equality}
+        k = t["kind"]
+        if k == "Event":
+            return Event()
+        if k == "Button":
+            return Button()
+        if k == "Instance":
+            return Instance(NodeBase, comparison_mode=cm[t["mode"]])
+        return {"Any": Any, "Int": Int, "Str": Str, "List": List}[k](comparison_mode=cm[t["mode"]])
+
     # ------------------------------------------------------------------ world
     def build(self, cfg, H):
         from traits.api import (HasTraits, Any, Int, Str, List, Instance, Event, Button,
@@ -239,7 +261,8 @@ class Prop:
         for s in cfg["static"]:
             t = cfg["traits"][s["trait"]]
             tn = t["name"]
-            suffix = "_fired" if (t["kind"] in ("Event", "Button") and s.get("fired")) else "_changed"
+            suffix = "_fired" if ((t["kind"] in ("Event", "Button") or s.get("both"))
+                                  and s.get("fired")) else "_changed"
             ns["_%s%s" % (tn, suffix)] = mk_static(s["id"], s["arity"], H, tn)
         if cfg.get("any"):
             ns["_anytrait_changed"] = mk_any(cfg["any"]["id"], cfg["any"]["arity"], H, set(names))
@@ -265,8 +288,8 @@ class Prop:
                 sdef = cfg["static"][ov]
                 t = cfg["traits"][sdef["trait"]]
                 tn = t["name"]
-                suffix = "_fired" if (t["kind"] in ("Event", "Button") and sdef.get("fired")) \
-                    else "_changed"
+                suffix = "_fired" if ((t["kind"] in ("Event", "Button") or sdef.get("both"))
+                                      and sdef.get("fired")) else "_changed"
                 sub_ns["_%s%s" % (tn, suffix)] = mk_static(sdef["id"] + "_ov", sdef["arity"], H, tn)
             cls = type(HasTraits)("SimC02Sub%d" % level, (cls,), sub_ns)
         return cls
@@ -453,6 +476,14 @@ class Prop:
                     sched.origin = None
             elif k == "gc":
                 gc.collect()
+            elif k == "readd":
+                # the same definition once more, as an instance trait: every handler -
+                # static, decorated, dynamic - stays attached exactly once
+                t = traits[op["t"] % len(traits)]
+                _, e = sut(obj.add_trait, t["name"], self.mk_trait(t))
+                if e is not None:
+                    raise Violation("C02.add_trait", "add_trait(%s, <same definition>) raised %r"
+                                    % (t["name"], e), i)
             else:
                 raise HarnessError("unknown op %r" % k)
             env.end_op()
